@@ -165,6 +165,7 @@ func HarnessFS() {
 				vrt.Mark("ACK")
 				vrt.Reach("reopened-and-acked")
 			}
+			vrt.Quiesce() // let a triggered rotation finish in both worlds before closing
 			l2.Close()
 		}
 	}
